@@ -8,6 +8,8 @@ The theorems named `C12_…` at the end are written as they belong into `Propert
 -/
 import Mahotas.Proofs.C12Kernels
 import Mahotas.Model.C12Kernels2
+import Mahotas.Proofs.C07
+import Mahotas.Proofs.C07Order
 namespace Mahotas.C12
 open Mahotas
 
@@ -89,8 +91,11 @@ theorem rank_rolesOk (m : Mode) (rank : Int) (vA vOut vBc : C08.View) (bc : Arra
       · rw [rolesOk_iff]
         refine ⟨by simp, ?_⟩
         intro l hl
-        cases hs : js.2 <;> simp [hs] at hl
-        subst hl; simp [Role.ok]
+        simp only at hl
+        split at hl
+        · simp only [List.mem_cons, List.not_mem_nil, or_false] at hl
+          subst hl; simp [Role.ok]
+        · simp at hl
       · rw [rolesOk_iff]; simp [Role.ok]
       · rw [rolesOk_iff]
         refine ⟨by simp, ?_⟩
@@ -451,6 +456,239 @@ theorem templateMatch_solo_value (kcs : List KCall) (t : Nat) (md : Mode) (vA vO
   rw [key]
   rfl
 
+/-! ## value tie: rank_filter (`C07.rankAt`) -/
+
+/-- a block program: a prefix, then one block of steps per pixel; a location no later block writes holds what
+block `k` left there -/
+theorem block_solo (F : List Step) (B : Nat → List Step) (N k : Nat) (hk : k < N) (l : Loc)
+    (hlater : ∀ i, k < i → i < N → ∀ s ∈ B i, s.dst ≠ l) (m : Mem) :
+    execAll (F ++ (List.range N).flatMap B) m l =
+      execAll (B k) (execAll (F ++ (List.range k).flatMap B) m) l := by
+  induction N with
+  | zero => omega
+  | succ N ih =>
+    rw [List.range_succ, List.flatMap_append, ← List.append_assoc, execAll_append]
+    simp only [List.flatMap_cons, List.flatMap_nil, List.append_nil]
+    by_cases hkN : k = N
+    · subst hkN; rfl
+    · rw [execAll_frame _ _ _ (hlater N (by omega) (by omega))]
+      exact ih (by omega) (fun i h1 h2 => hlater i h1 (by omega))
+
+/-- one phase `G 0 … G (n-1)` with distinct destinations none of which is a source of `G j`: the destination
+of `G j` receives `G j`'s operation on the values before the phase -/
+theorem phase_value (G : Nat → Step) (n : Nat)
+    (hinj : ∀ k k', k < n → k' < n → (G k).dst = (G k').dst → k = k') (M : Mem) (j : Nat) (hj : j < n)
+    (hsrc : ∀ l ∈ (G j).srcs, ∀ i, i < n → (G i).dst ≠ l) :
+    execAll ((List.range n).map G) M (G j).dst = (G j).op ((G j).srcs.map M.get) := by
+  have := gather_solo [] G n hinj M j hj
+  simp only [List.nil_append] at this
+  rw [this]
+  congr 1
+  apply List.map_congr_left
+  intro l hl
+  apply execAll_frame
+  intro s hs
+  obtain ⟨i, hi, rfl⟩ := List.mem_map.1 hs
+  exact hsrc l hl i (by have := List.mem_range.1 hi; omega)
+
+theorem range_map_getD {α β : Type} (s : List α) (d : α) (g : α → β) :
+    (List.range s.length).map (fun j => g (s.getD j d)) = s.map g := by
+  apply List.ext_getElem
+  · simp
+  · intro i h1 h2
+    simp at h1
+    simp [List.getD_eq_getElem?_getD, h1]
+
+/-- the values of the samples `rank_filter` gathers are `C07.gather` -/
+theorem rankSamples_vals (md : Mode) (vA : C08.View) (f : Img Int) (hshape : f.shape = vA.shape)
+    (valF : Int → Val)
+    (hF : ∀ q q', fixPos md vA.shape q = some q' → valF (vA.addr (q'.map Int.toNat)) = f.getD q' 0)
+    (fp : List (List Int)) (p : List Int) :
+    (rankSamples md vA fp p).map (fun o => match o with | some a => valF a | none => 0) =
+      C07.gather md f fp p := by
+  unfold rankSamples C07.gather
+  rw [List.map_filterMap]
+  apply List.filterMap_congr
+  intro d _
+  rw [hshape]
+  cases hfix : fixPos md vA.shape (addPos p d) with
+  | none =>
+    simp only [nbrAddr, hfix, Option.map_none]
+    by_cases hm : md = .constant <;> simp [hm]
+  | some q' =>
+    simp only [nbrAddr, hfix, Option.map_some]
+    rw [hF _ _ hfix]
+
+theorem exec_dst (s : Step) (M : Mem) : s.exec M s.dst = s.op (s.srcs.map M.get) := by
+  simp [Step.exec, Mem.set_apply]
+
+theorem rank_solo_value (kcs : List KCall) (t : Nat) (md : Mode) (rank : Int) (vA vOut vBc : C08.View)
+    (bc : Array Int) (aA aBc aOut aFd aNb aTmp : Nat)
+    (hk : kcs[t]? = some ((Kernel2.rank md rank vA vOut vBc bc).call ⟨[aA, aBc], [aOut, aFd, aNb, aTmp]⟩))
+    (hA1 : aA ≠ aOut) (hA2 : aA ≠ aFd) (hA3 : aA ≠ aNb) (hA4 : aA ≠ aTmp)
+    (h1 : aOut ≠ aNb) (h2 : aOut ≠ aTmp) (h3 : aNb ≠ aTmp)
+    (f : Img Int) (hshape : f.shape = vA.shape) (m : Mem)
+    (hA : ∀ q q', fixPos md vA.shape q = some q' →
+        m ((KLoc.mk aA (vA.addr (q'.map Int.toNat))).toLoc (kcs.map (·.call))) = f.getD q' 0)
+    (hinj : ∀ k k', k < shapeSize vA.shape → k' < shapeSize vA.shape →
+        iterAddr vOut k = iterAddr vOut k' → k = k')
+    (k : Nat) (hkn : k < shapeSize vA.shape) (v : Int)
+    (hv : C07.rankAt md f (C07.footprint vBc.shape bc) rank (unravelI vA.shape k) = some v) :
+    solo (compile kcs) t m ((KLoc.mk aOut (iterAddr vOut k)).toLoc (kcs.map (·.call))) = v := by
+  let c : Call := ⟨[aA, aBc], [aOut, aFd, aNb, aTmp]⟩
+  have hcne : c.outputs ≠ [] := by simp [c]
+  let calls := kcs.map (·.call)
+  let fp := C07.footprint vBc.shape bc
+  let cs : RStep → Step := fun r => (mkStep c r).compile calls
+  have hrank : ¬(rank < 0 ∨ rank ≥ (fp.length : Int)) := by
+    intro h
+    unfold C07.rankAt at hv
+    rw [if_pos h] at hv
+    cases hv
+  let B : Nat → List Step := fun i => (rankPixel md rank.toNat vA vOut fp i).map cs
+  have hprog : compile kcs t = (filterCopyRaw 1 vBc).map cs ++ (List.range (shapeSize vA.shape)).flatMap B := by
+    unfold compile
+    rw [hk]
+    simp only [KCall.prog, Kernel2.call, Kernel2.raw, rankRaw]
+    rw [if_neg hrank]
+    simp only [List.map_append, List.map_map, List.map_flatMap]
+    rfl
+  have haA : aA ∉ c.outputs := by simp [c, hA1, hA2, hA3, hA4]
+  rw [solo_eq_execAll, hprog]
+  -- blocks of later pixels do not write the result location of pixel `k`
+  rw [block_solo _ B _ k hkn _ (by
+    intro i hki hiN s hs
+    obtain ⟨r, hr, rfl⟩ := List.mem_map.1 hs
+    simp only [rankPixel, List.mem_append, List.mem_map, List.mem_cons, List.not_mem_nil, or_false] at hr
+    rcases hr with ((⟨j, _, rfl⟩ | ⟨j, _, rfl⟩) | ⟨j, _, rfl⟩) | rfl
+    · exact toLoc_ne_of_arr calls _ _ (fun h => h1 h.symm)
+    · exact toLoc_ne_of_arr calls _ _ (fun h => h2 h.symm)
+    · exact toLoc_ne_of_arr calls _ _ (fun h => h1 h.symm)
+    · intro heq
+      have := KLoc.toLoc_inj calls _ _ heq
+      have h' : iterAddr vOut i = iterAddr vOut k := by
+        have h'' := congrArg KLoc.off this
+        simpa [mkStep] using h''
+      have := hinj i k hiN hkn h'
+      omega) m]
+  obtain ⟨M0, hM0⟩ : ∃ M0, M0 = execAll ((filterCopyRaw 1 vBc).map cs ++ (List.range k).flatMap B) m := ⟨_, rfl⟩
+  rw [← hM0]
+  -- the input array still holds the initial memory
+  have hread : ∀ a : Int, M0 ((KLoc.mk aA a).toLoc calls) = m ((KLoc.mk aA a).toLoc calls) := by
+    intro a
+    rw [hM0]
+    apply execAll_frame
+    intro s hs
+    rcases List.mem_append.1 hs with h | h
+    · obtain ⟨r, _, rfl⟩ := List.mem_map.1 h
+      exact compiled_dst_ne calls c hcne r _ haA
+    · obtain ⟨i, _, h⟩ := List.mem_flatMap.1 h
+      obtain ⟨r, _, rfl⟩ := List.mem_map.1 h
+      exact compiled_dst_ne calls c hcne r _ haA
+  -- the block of pixel `k`, phase by phase
+  let p := unravelI vA.shape k
+  let smp := rankSamples md vA fp p
+  let n := smp.length
+  let g : Option Int → Val := fun o => match o with | some a => M0 ((KLoc.mk aA a).toLoc calls) | none => 0
+  let S : Nat → Step := fun j => cs ⟨2, (j : Int),
+    (match smp.getD j none with | some a => [⟨.inp 0, a⟩] | none => []), fun vs => vs.headD 0⟩
+  let C : Nat → Step := fun j => cs ⟨3, (j : Int), [⟨.own 2, (j : Int)⟩], fun vs => vs.headD 0⟩
+  let T : Nat → Step := fun j => cs ⟨2, (j : Int), (List.range n).map (fun (l : Nat) => ⟨.own 3, (l : Int)⟩), sortedAt j⟩
+  let cr := C07.curRank n fp.length rank.toNat
+  let R : Step := cs ⟨0, iterAddr vOut k, [⟨.own 2, ((cr : Nat) : Int)⟩], fun vs => vs.headD 0⟩
+  have hB : B k = (List.range n).map S ++ (List.range n).map C ++ (List.range n).map T ++ [R] := by
+    simp only [B, rankPixel, List.map_append, List.map_map, List.map_cons, List.map_nil]
+    rfl
+  have injOff : ∀ (a : Nat) (G : Nat → Step), (∀ j, (G j).dst = (KLoc.mk a (j : Int)).toLoc calls) →
+      ∀ k k', k < n → k' < n → (G k).dst = (G k').dst → k = k' := by
+    intro a G hG x y _ _ hxy
+    rw [hG x, hG y] at hxy
+    have := KLoc.toLoc_inj calls _ _ hxy
+    simpa using this
+  have hSd : ∀ j, (S j).dst = (KLoc.mk aNb (j : Int)).toLoc calls := fun j => rfl
+  have hCd : ∀ j, (C j).dst = (KLoc.mk aTmp (j : Int)).toLoc calls := fun j => rfl
+  have hTd : ∀ j, (T j).dst = (KLoc.mk aNb (j : Int)).toLoc calls := fun j => rfl
+  obtain ⟨M1, hM1⟩ : ∃ M1, M1 = execAll ((List.range n).map S) M0 := ⟨_, rfl⟩
+  obtain ⟨M2, hM2⟩ : ∃ M2, M2 = execAll ((List.range n).map C) M1 := ⟨_, rfl⟩
+  obtain ⟨M3, hM3⟩ : ∃ M3, M3 = execAll ((List.range n).map T) M2 := ⟨_, rfl⟩
+  -- phase 1: `neighbours[j]` = sample `j`
+  have hP1 : ∀ j, j < n → M1 ((KLoc.mk aNb (j : Int)).toLoc calls) = g (smp.getD j none) := by
+    intro j hj
+    rw [hM1, ← hSd j, phase_value S n (injOff aNb S hSd) M0 j hj (by
+      intro l hl i _
+      rw [hSd i]
+      simp only [S, cs, KStep.compile, mkStep, List.mem_map] at hl
+      obtain ⟨x, ⟨y, hy, rfl⟩, rfl⟩ := hl
+      apply toLoc_ne_of_arr
+      cases hs : smp.getD j none with
+      | none => rw [hs] at hy; simp at hy
+      | some a =>
+        rw [hs] at hy
+        simp only [List.mem_cons, List.not_mem_nil, or_false] at hy
+        subst hy
+        exact fun h => hA3 h.symm)]
+    simp only [S, cs, KStep.compile, mkStep, g]
+    cases hs : smp.getD j none with
+    | none => rfl
+    | some a => rfl
+  -- phase 2: the snapshot
+  have hP2 : ∀ j, j < n → M2 ((KLoc.mk aTmp (j : Int)).toLoc calls) = g (smp.getD j none) := by
+    intro j hj
+    rw [hM2, ← hCd j, phase_value C n (injOff aTmp C hCd) M1 j hj (by
+      intro l hl i _
+      rw [hCd i]
+      simp only [C, cs, KStep.compile, mkStep, List.map_cons, List.map_nil, List.mem_cons,
+        List.not_mem_nil, or_false] at hl
+      subst hl
+      exact toLoc_ne_of_arr calls _ _ (fun h => h3 h.symm))]
+    rw [← hP1 j hj]
+    rfl
+  -- phase 3: the sorted range
+  have hvals : (List.range n).map (fun (l : Nat) => M2 ((KLoc.mk aTmp (l : Int)).toLoc calls)) =
+      C07.gather md f fp p := by
+    rw [← rankSamples_vals md vA f hshape (fun a => M0 ((KLoc.mk aA a).toLoc calls))
+      (fun q q' hq => by rw [hread]; exact hA q q' hq) fp p]
+    rw [← range_map_getD smp none]
+    apply List.map_congr_left
+    intro l hl
+    exact hP2 l (List.mem_range.1 hl)
+  have hP3 : ∀ j, j < n → M3 ((KLoc.mk aNb (j : Int)).toLoc calls) = sortedAt j (C07.gather md f fp p) := by
+    intro j hj
+    rw [hM3, ← hTd j, phase_value T n (injOff aNb T hTd) M2 j hj (by
+      intro l hl i _
+      rw [hTd i]
+      simp only [T, cs, KStep.compile, mkStep, List.map_map, List.mem_map] at hl
+      obtain ⟨x, _, rfl⟩ := hl
+      exact toLoc_ne_of_arr calls _ _ h3)]
+    rw [← hvals]
+    simp only [T, cs, KStep.compile, mkStep, List.map_map]
+    rfl
+  -- the rank of the model
+  have hlen : (C07.gather md f fp p).length = n := by
+    rw [← rankSamples_vals md vA f hshape (fun a => M0 ((KLoc.mk aA a).toLoc calls))
+      (fun q q' hq => by rw [hread]; exact hA q q' hq) fp p]
+    simp [n, smp]
+  have hnth : C07.nthElement (C07.gather md f fp p) cr = some v := by
+    unfold C07.rankAt at hv
+    rw [if_neg hrank] at hv
+    simp only at hv
+    rw [hlen] at hv
+    exact hv
+  have hcr : cr < n := by
+    have := C07.nthElement_lt _ _ _ hnth
+    omega
+  -- assemble
+  rw [hB, execAll_append, execAll_append, execAll_append, ← hM1, ← hM2, ← hM3]
+  show R.exec M3 R.dst = v
+  rw [exec_dst]
+  show (fun vs : List Val => vs.headD 0) [M3 ((KLoc.mk aNb ((cr : Nat) : Int)).toLoc calls)] = v
+  simp only [List.headD_cons]
+  rw [hP3 cr hcr]
+  unfold sortedAt
+  rw [C07.kthSmallest_eq_nthElement, hnth]
+  rfl
+
+
 end Mahotas.C12
 
 /-! # property theorems (to be placed in `Properties/C12.lean`) -/
@@ -585,6 +823,35 @@ theorem C12_template_match_program_computes_model (kcs : List KCall) (t : Nat) (
     solo (compile kcs) t m ((KLoc.mk aOut (iterAddr vOut k)).toLoc (kcs.map (·.call))) =
       C07.tmAt md f vT.shape tp (unravelI vA.shape k) :=
   templateMatch_solo_value kcs t md vA vOut vT aF aT aOut hk hne1 hne2 f hshape tp m hA hT hinj k hkn
+
+/-- **C12-T4 (tie: the rank_filter program computes `C07.rankAt`).** Let call number `t` of ANY family of calls
+be `rank_filter` (any border mode, any rank, any views, any structuring element) on arrays `[aA, aBc]` →
+`[aOut, aFd, aNb, aTmp]` (result, `filter_data_`, the private `neighbours` buffer, the locals of
+`nth_element`), the input array distinct from the owned ones and result / `neighbours` / locals pairwise
+distinct. If the initial memory presents the logical image `f` through the view `vA` at every position the
+border rule delivers and the result view does not overlap itself, then after the SOLO run of the compiled step
+program — per pixel: the samples are stored into `neighbours` one by one (`cval = 0` for a flagged sample in
+mode constant), the range is snapshot and written back sorted (one admissible outcome of `nth_element`), and
+`neighbours[currank]` is copied to the result — the result location of every pixel `k` at which the model is
+defined (`C07.rankAt … = some v`: rank inside `[0, N2)`, at least one sample) holds exactly `v`, the value of the
+model the driver runs (`c07 kind=rank`). The private buffer is reused by all pixels; that no later pixel
+disturbs an earlier result is part of the proof. With `C12_concurrent_calls_independent` the same value is there
+after every complete interleaving with any other calls that have disjoint outputs. -/
+theorem C12_rank_filter_program_computes_model (kcs : List KCall) (t : Nat) (md : Mode) (rank : Int)
+    (vA vOut vBc : C08.View) (bc : Array Int) (aA aBc aOut aFd aNb aTmp : Nat)
+    (hk : kcs[t]? = some ((Kernel2.rank md rank vA vOut vBc bc).call ⟨[aA, aBc], [aOut, aFd, aNb, aTmp]⟩))
+    (hA1 : aA ≠ aOut) (hA2 : aA ≠ aFd) (hA3 : aA ≠ aNb) (hA4 : aA ≠ aTmp)
+    (h1 : aOut ≠ aNb) (h2 : aOut ≠ aTmp) (h3 : aNb ≠ aTmp)
+    (f : Img Int) (hshape : f.shape = vA.shape) (m : Mem)
+    (hA : ∀ q q', fixPos md vA.shape q = some q' →
+        m ((KLoc.mk aA (vA.addr (q'.map Int.toNat))).toLoc (kcs.map (·.call))) = f.getD q' 0)
+    (hinj : ∀ k k', k < shapeSize vA.shape → k' < shapeSize vA.shape →
+        iterAddr vOut k = iterAddr vOut k' → k = k')
+    (k : Nat) (hkn : k < shapeSize vA.shape) (v : Int)
+    (hv : C07.rankAt md f (C07.footprint vBc.shape bc) rank (unravelI vA.shape k) = some v) :
+    solo (compile kcs) t m ((KLoc.mk aOut (iterAddr vOut k)).toLoc (kcs.map (·.call))) = v :=
+  rank_solo_value kcs t md rank vA vOut vBc bc aA aBc aOut aFd aNb aTmp hk hA1 hA2 hA3 hA4 h1 h2 h3 f hshape m hA
+    hinj k hkn v hv
 
 /-! ## non-vacuity -/
 
